@@ -236,7 +236,7 @@ int hx_mutate_main(int argc, char **argv) {
     if (argc < 1) return 2;
     uint64_t seed = 1, n = 1000, start = 0;
     unsigned shard = 0, nshards = 1;
-    int keep_per_key = 3;
+    int keep_per_key = 3, touch_all = 0;
     const char *outdir = NULL, *sigfile = NULL;
     for (int i = 1; i < argc; i++) {
         if (!strcmp(argv[i], "--n") && i + 1 < argc) n = strtoull(argv[++i], NULL, 0);
@@ -247,6 +247,7 @@ int hx_mutate_main(int argc, char **argv) {
         else if (!strcmp(argv[i], "--keep-per-key") && i + 1 < argc) keep_per_key = atoi(argv[++i]);
         else if (!strcmp(argv[i], "--sigfile") && i + 1 < argc) sigfile = argv[++i];
         else if (!strcmp(argv[i], "--start") && i + 1 < argc) start = strtoull(argv[++i], NULL, 0);
+        else if (!strcmp(argv[i], "--touch-all") ) touch_all = 1;
     }
     hx_batch corpus;
     if (hx_batch_load(argv[0], &corpus) != 0 || corpus.ncases == 0) { fprintf(stderr, "hx mutate: cannot load corpus %s\n", argv[0]); return 2; }
@@ -275,10 +276,15 @@ int hx_mutate_main(int argc, char **argv) {
         hx_result_init(&r);
         hx_current_case = &c;
         alarm(120);
+        if (touch_all) c.cfg[CF_DUMP] = HX_DUMP_TX | HX_DUMP_BODY | HX_DUMP_EVENTS | HX_DUMP_LOG;
         hx_run(&c, &r);
         alarm(0);
         hx_current_case = NULL;
         hx_stats_add(&tot, &r.st);
+        /* memcheck runs: fold every byte of the canonical dump (every user-visible field the library produced) into the
+         * behaviour signature, whose use as a hash-set key makes control flow depend on it, so that a field
+         * computed from uninitialised memory is reported */
+        if (touch_all && r.dump.n) r.sig = hx_hash(r.dump.p, r.dump.n, r.sig);
         if (r.n_tx > 0 && sig_add(r.sig)) {
             nontrivial++;
             if (nontrivial == 1 || (nontrivial % 2000) == 7) { if (sample.n < 6000) { if (sample.n) hb_puts(&sample, ","); hx_case_json(&sample, &c); } }
